@@ -14,6 +14,8 @@ pub mod c11;
 pub mod c12;
 pub mod c13;
 pub mod c15;
+pub mod c17;
+pub mod c19;
 pub mod c20;
 
 pub struct Prop {
@@ -28,7 +30,7 @@ pub struct Prop {
 }
 
 pub fn all() -> Vec<Prop> {
-    vec![c01::PROP, c02::PROP, c03::PROP, c05::PROP, c06::PROP, c07::PROP, c10::PROP, c11::PROP, c12::PROP, c13::PROP, c15::PROP, c20::PROP]
+    vec![c01::PROP, c02::PROP, c03::PROP, c05::PROP, c06::PROP, c07::PROP, c10::PROP, c11::PROP, c12::PROP, c13::PROP, c15::PROP, c17::PROP, c19::PROP, c20::PROP]
 }
 
 pub fn find(id: &str) -> Option<Prop> {
